@@ -63,6 +63,8 @@ ObjComplaints(m, ob, involved, e) ==
   IN core \cup c04 \cup c05
      \cup (IF ~involved /\ (core \cup c04 \cup c05) # {}
            THEN {<<"C20", "an operation on another object changed (or invalidated) this one">>} ELSE {})
+     \cup (IF m.kin /\ c05 # {}
+           THEN {<<"C20", "a clone / cloned original lost the memory behind its contents: " \o x[2]>> : x \in c05} ELSE {})
      \cup (IF involved /\ e.ev \in {"clone", "take"} /\ (c04 \cup c05) # {}
            THEN {<<"C20", "clone/take left an object in a wrong state: " \o x[2]>> : x \in c04 \cup c05} ELSE {})
 
@@ -107,9 +109,11 @@ Step(e) ==
       ELSE [w |-> WithLens(w, e),
             bad |-> When(e.panic = "", {<<"C04", "a backfill of the wrong size did not panic">>}) \cup Observe(w, e)]
   ELSE IF e.panic # "" THEN
-      [w |-> w, bad |-> {<<IF e.ev \in {"register", "backfill"} THEN "C04"
-                            ELSE IF e.ev \in {"clone", "take"} THEN "C20" ELSE "C03",
-                           "panic on a valid operation sequence (" \o e.ev \o "): " \o e.panic>>}]
+      \* C03 quantifies over every sequence of producer and consumer operations: a panic on a valid one breaks it,
+      \* whatever else it breaks
+      [w |-> w, bad |-> {<<p, "panic on a valid operation sequence (" \o e.ev \o "): " \o e.panic>> :
+                           p \in {"C03"} \cup (IF e.ev \in {"register", "backfill"} THEN {"C04"}
+                                               ELSE IF e.ev \in {"clone", "take"} THEN {"C20"} ELSE {})}]
   ELSE IF e.err # "" THEN [w |-> w, bad |-> {<<"C03", "operation failed: " \o e.err>>}]
   ELSE IF ~(e.ev \in {"new", "from_slices", "held_op"}) /\ "o" \in DOMAIN e /\ e.skip = 0 /\ ~Live(w, e.o)
     THEN [w |-> w, bad |-> {<<"C03", "harness executed an operation on an object the model does not have">>}]
